@@ -35,6 +35,42 @@ func (x *Exec) dispatchIO2(st *Step, ev Ev) {
 		qf := x.frame(st.Recv)
 		scribble(qf)
 		ev["a"] = Ev{"_": 0}
+	case "TypedView":
+		// the non-panicking view constructors: an error exactly for a missing column or another type
+		qf := x.frame(st.Recv)
+		name := st.Dst.String()
+		var err error
+		n := -1
+		switch st.Fl {
+		case "int":
+			v, e := qf.IntView(name)
+			if err = e; e == nil {
+				n = v.Len()
+			}
+		case "float":
+			v, e := qf.FloatView(name)
+			if err = e; e == nil {
+				n = v.Len()
+			}
+		case "bool":
+			v, e := qf.BoolView(name)
+			if err = e; e == nil {
+				n = v.Len()
+			}
+		case "string":
+			v, e := qf.StringView(name)
+			if err = e; e == nil {
+				n = v.Len()
+			}
+		default:
+			v, e := qf.EnumView(name)
+			if err = e; e == nil {
+				n = v.Len()
+			}
+		}
+		ev["a"] = Ev{"col": st.Dst, "typ": st.Fl}
+		ev["res"] = b2i(err != nil)
+		ev["vlen"] = n
 	case "View":
 		qf := x.frame(st.Recv)
 		name := st.Dst.String()
